@@ -1,4 +1,3 @@
 SPECIFICATION Spec
-CONSTANT Tier = "quick"
 INVARIANT Emit
 CHECK_DEADLOCK FALSE
